@@ -12,7 +12,7 @@ SPEC = {
         "semantic equivalence of the rewrites is evaluated by scanning generated buffers with the original and the fixed rules (not proved); compared for the rewrites the property lists as equivalent (text_as_hex, bool_int_comparison, consecutive_jumps, duplicate_import, ambiguous_expr); fixes of unsatisfiable_expr may change values; for deprecated_field the property is silent and the verdicts are not compared (observed: `dotnet.number_of_streams == 0` is false on a non-.NET file, its fix `dotnet.streams.len() == 0` is true)",
         "only warning patches (what `yr fix warnings` applies) are in scope; patches attached to errors (missing import, entrypoint) are not applied by the tool",
     ],
-    "trusted_base": ["Gen/FixApply.v: sort key, truncate-before-write, the shape of the slicing loop (checked), the escape table and the producer's guard; regenerated from cli/src/commands/fix.rs and lib/src/compiler/ir/ast2ir.rs",
+    "trusted_base": ["Gen/FixApply.v: sort key, truncate-before-write, the key under which the patches of a file are collected (path as written / canonical path), the shape of the slicing loop (checked), the escape table and the producer's guard; regenerated from cli/src/commands/fix.rs and lib/src/compiler/ir/ast2ir.rs",
                      "`yr` built from /repo/cli into .cache/target-cli (when it builds in time)"],
 }
 
@@ -25,7 +25,14 @@ RULE = ("one source per case: a rule with two text patterns plus 1-3 fixable fea
         "main.yar with a fixable rule before and after `include \"common.yar\"` (3 layouts) and common.yar with a fixable rule; one case "
         "per file with the patches whose origin() is that file: each patch must name the file whose text its span covers (span text "
         "matches the diagnostic, token boundaries of that file), applying the patches per origin must leave the set compiling with the "
-        "diagnostics gone, and `yr fix warnings --include-dir` on a copy must leave each file as the model says. "
+        "diagnostics gone, and `yr fix warnings --include-dir` on a copy must leave each file as the model says. Every sixth case (offset 3) is "
+        "a compilation of 2-3 sources (separate add_source calls, two thirds with a namespace each, all importing the same modules, each "
+        "with its own fixable diagnostics): one case per file; the patches applied per file must leave ALL files compiling together in the "
+        "same setup with the diagnostics gone and the same scan results; `yr fix warnings [nsK:]sK.yar ...` on copies must leave each file "
+        "with its fixes applied together (S) and as the model says (K); in a third of the namespace runs the first file is named once more, "
+        "written `./s0.yar`, under another namespace (model: Patch.yr_file with the number of spellings). Boolean operands include ones with "
+        "a raw tab inside a string literal and between tokens: the operand that a `<bool> == k` fix keeps must be the text that was written "
+        "(white space outside literals aside). "
         "Per case: patches of Compiler::warnings(); bounds, token boundaries, disjointness, reference application, recompilation, "
         "remaining diagnostics, scan dumps of original vs fixed rules on 10+ buffers built from the patterns' own bytes; for a subset "
         "the real `yr fix warnings` on a temporary copy vs the Coq model. Distinct = distinct sources with >= 1 patch.")
@@ -81,7 +88,8 @@ MANIFEST = {
     "level_note": ("Partial: equivalence of the individual rewrites (bool==0/1, `0 of`->`none of`, merged jumps) is evaluated by "
                    "scanning, not proved (Fix/Rewrites.v of the design is not built). Known findings: the compiler still attaches "
                    "overlapping patches to chained comparisons (since 84ef5faa the tool skips the second one instead of destroying the "
-                   "file). Repaired: file truncation + panic on overlapping patches, `0 of` evaluated as always true (its `none of` fix changed verdicts), "
+                   "file); a file named twice with different spellings is patched twice by the tool (refuted: yr_file_twice_refuted; proved "
+                   "for one round per file: yr_file_once); the bool/int fix turns a tab inside a string literal of its operand into a space. Repaired: file truncation + panic on overlapping patches, `0 of` evaluated as always true (its `none of` fix changed verdicts), "
                    "`module.func() == 0` fix dropping the module prefix, case-constraint fix re-quoting an unescaped constant. "
                    "Trusted: Coq kernel, translator gen_fixapply.py, the harness, the hand-written tokenizer/string_lit model."),
     "technique": "Coq proof over a model with source-generated facts + differential correspondence against the built CLI (vm_compute) + property evaluation on the implementation",
